@@ -19,6 +19,9 @@ C06 driver.
                               what the base table answers
   dmap <via>    => nw=.. ew=..   `DataMap` through a delegation: the weights of `node_references` / `edge_references`
                               of the base table, `None` for every id that is not listed there
+  law <kind> <name> <cov> => ok | VIOLATED <why>   a law checked by the harness against the implementation itself (the
+                              iterator laws on every trait-level iterator of the view, fresh and mid-iteration; std-trait
+                              laws of the base types): anything but `ok` is a SPECFAIL
 
 Run-time checks of the theorems' hypotheses (G-A; `C06_*_check` in Theorems/C06.lean): a request outside the scope of
 the storage theorems (`Store.exec` refuses it) and an adaptor stack that is not `StackOk` (`stackOkB`) are answered
@@ -338,6 +341,13 @@ def stepDmap (d : DState) (via : String) (impl : String) : DState × String :=
       | none, none => (d, "ok")
     | _, _ => (d, s!"SPECFAIL a DataMap call through [{via}] panicked or the line is malformed: {impl}")
 
+/-- a LAW checked by the harness against the implementation itself (iterator laws of every trait-level iterator of a
+view: `harness/src/iterlaws.rs`; `clone_from`/`Default`/`Debug` laws of the base types): the only admissible answer
+is `ok`.  No classifier: none of the open findings (D6, D7, D23) concerns the way an iterator is consumed. -/
+def stepLaw (d : DState) (what : List String) (impl : String) : String :=
+  if impl == "ok" then "ok"
+  else "SPECFAIL " ++ s!"law [{String.intercalate " " what}] over {d.ty}: {impl}"
+
 def step (d : DState) (req : List String) (impl : String) : DState × String :=
   match req with
   | "case" :: k :: ty :: dir :: rest =>
@@ -348,6 +358,7 @@ def step (d : DState) (req : List String) (impl : String) : DState × String :=
   | ["view", stack] => stepView d stack impl
   | ["mutview"] => stepMutView d impl
   | ["dmap", via] => stepDmap d via impl
+  | "law" :: what => (d, stepLaw d what impl)
   | _ => (d, s!"SPECFAIL bad request {req}")
 
 end PetgraphModel.C06
